@@ -1,5 +1,6 @@
 import HmsProofs.Lemmas.SimHComp
 import HmsProofs.Lemmas.SimHStmt2
+import HmsProofs.Lemmas.SimHIrrel
 /-!
 # The compiler on the statements of the general fragment
 -/
@@ -36,27 +37,30 @@ theorem cdS_pos (st : Stmt) : 1 ≤ Frag.cdS st := by
   case ret sp oe => cases oe <;> simp [Frag.cdS]
 
 theorem compile_gstmt : ∀ (fuel : Nat),
-    (∀ (st : Stmt) (cs : CState) (L : List (String × String × Nat)), cs.tryDepth = 0 →
-      Frag.okGS (!L.isEmpty) st = true → Frag.cdS st ≤ fuel → CompGS fuel st cs L) ∧
-    (∀ (ss : List Stmt) (cs : CState) (L : List (String × String × Nat)), cs.tryDepth = 0 →
-      Frag.okGSs (!L.isEmpty) ss = true → Frag.cdSs ss ≤ fuel → CompGSs fuel ss cs L) ∧
-    (∀ (b : Block) (cs : CState) (L : List (String × String × Nat)), cs.tryDepth = 0 →
-      Frag.okGBS (!L.isEmpty) b = true → Frag.cdBS b ≤ fuel → CompGBS fuel b cs L) := by
+    (∀ (st : Stmt) (cs : CState) (L : List (String × String × Nat)) (il rt : Bool),
+      (rt = true → cs.tryDepth = 0) → (il = true → ∃ b c rest, L = (b, c, cs.tryDepth) :: rest) →
+      Frag.okGS il rt st = true → Frag.cdS st ≤ fuel → CompGS fuel st cs L) ∧
+    (∀ (ss : List Stmt) (cs : CState) (L : List (String × String × Nat)) (il rt : Bool),
+      (rt = true → cs.tryDepth = 0) → (il = true → ∃ b c rest, L = (b, c, cs.tryDepth) :: rest) →
+      Frag.okGSs il rt ss = true → Frag.cdSs ss ≤ fuel → CompGSs fuel ss cs L) ∧
+    (∀ (b : Block) (cs : CState) (L : List (String × String × Nat)) (il rt : Bool),
+      (rt = true → cs.tryDepth = 0) → (il = true → ∃ b c rest, L = (b, c, cs.tryDepth) :: rest) →
+      Frag.okGBS il rt b = true → Frag.cdBS b ≤ fuel → CompGBS fuel b cs L) := by
   intro fuel
   induction fuel using Nat.strongRecOn with
   | _ fuel ihAll =>
   cases fuel with
   | zero =>
     refine ⟨?_, ?_, ?_⟩
-    · intro st cs L _ _ hd
+    · intro st cs L _ _ _ _ _ hd
       have := cdS_pos st
       omega
-    · intro ss cs L _ _ hd; cases ss <;> simp [Frag.cdSs] at hd
-    · intro b cs L _ _ hd; obtain ⟨_, _, _, _⟩ := b; simp [Frag.cdBS] at hd
+    · intro ss cs L _ _ _ _ _ hd; cases ss <;> simp [Frag.cdSs] at hd
+    · intro b cs L _ _ _ _ _ hd; obtain ⟨_, _, _, _⟩ := b; simp [Frag.cdBS] at hd
   | succ fuel =>
     obtain ⟨ihS, ihSs, ihB⟩ := ihAll fuel (Nat.lt_succ_self _)
     refine ⟨?_, ?_, ?_⟩
-    · intro st cs L htd hs hd c0 env hws
+    · intro st cs L il rt hrt hil hs hd c0 env hws
       cases st
       case typedef | trigger | forS => simp [Frag.okGS] at hs
       case letS sp name vty needsCast oty e =>
@@ -80,9 +84,9 @@ theorem compile_gstmt : ∀ (fuel : Nat),
       case exprS sp e =>
         have hGE : ∀ f, f ≤ fuel → ∀ (e : Expr) (cs : CState), Frag.okGE e = true → Frag.cdE e ≤ f → CompGE f e cs :=
           fun f _ => (compile_gexpr f).1
-        rcases okGS_exprS_inv _ sp e hs with ⟨asp, op, isp, ity, name, isFn, r, rfl, hr, hlog⟩ |
+        rcases okGS_exprS_inv _ _ sp e hs with ⟨asp, op, isp, ity, name, isFn, r, rfl, hr, hlog⟩ |
           ⟨isp, ty, cnd, t, eb, rfl, hty, hcnd, ht, heb⟩ | ⟨isp, ty, cnd, t, rfl, hty, hcnd, ht⟩ |
-          ⟨csp, cty, isp, ity, name, g, f, si, args, sw, rfl, hcase⟩
+          ⟨csp, cty, isp, ity, name, g, f, si, args, sw, rfl, hcase⟩ | ⟨tsp, tty, tb, ci, cb, rfl, htty, htb, hcb⟩
         · simp only [Frag.cdS, Frag.cdX] at hd
           obtain ⟨f', rfl⟩ : ∃ f', fuel = f' + 1 := ⟨fuel - 1, by have := cdE_pos r; omega⟩
           simp only [Frag.wsGS, Bool.and_eq_true] at hws
@@ -122,11 +126,11 @@ theorem compile_gstmt : ∀ (fuel : Nat),
           refine bind_run _ _ _ _ _ _ (mangleLabel_run_S _ _ _ _ _) ?_
           refine bind_run _ _ _ _ _ _ (mangleLabel_run_S _ _ _ _ _) ?_
           refine bind_run _ _ _ _ _ _ (emit_run_S _ _ _ _ _ _) ?_
-          refine bind_run _ _ _ _ _ _ (ihB' t cs L htd ht (by omega) _ _ hwt) ?_
+          refine bind_run _ _ _ _ _ _ (ihB' t cs L il rt hrt hil ht (by omega) _ _ hwt) ?_
           refine bind_run _ _ _ _ _ _ (emit_run_S _ _ _ _ _ _) ?_
           simp only []
           refine bind_run _ _ _ _ _ _ (emit_run_S _ _ _ _ _ _) ?_
-          refine bind_run _ _ _ _ _ _ (ihB' eb cs L htd heb (by omega) _ _ hwe) ?_
+          refine bind_run _ _ _ _ _ _ (ihB' eb cs L il rt hrt hil heb (by omega) _ _ hwe) ?_
           rw [emit_run_S]
           simp only [List.append_assoc, List.cons_append, List.nil_append, Option.isSome_some, if_true]
         · -- `if c { … }`
@@ -142,7 +146,7 @@ theorem compile_gstmt : ∀ (fuel : Nat),
           refine bind_run _ _ _ _ _ _ (mangleLabel_run_S _ _ _ _ _) ?_
           refine bind_run _ _ _ _ _ _ (mangleLabel_run_S _ _ _ _ _) ?_
           refine bind_run _ _ _ _ _ _ (emit_run_S _ _ _ _ _ _) ?_
-          refine bind_run _ _ _ _ _ _ (ihB' t cs L htd ht (by omega) _ _ hwt) ?_
+          refine bind_run _ _ _ _ _ _ (ihB' t cs L il rt hrt hil ht (by omega) _ _ hwt) ?_
           refine bind_run _ _ _ _ _ _ (emit_run_S _ _ _ _ _ _) ?_
           simp only []
           rw [emit_run_S]
@@ -150,9 +154,11 @@ theorem compile_gstmt : ∀ (fuel : Nat),
             if_false]
         · simp only [Frag.cdS, Frag.cdX] at hd
           obtain ⟨f', rfl⟩ : ∃ f', fuel = f' + 1 := ⟨fuel - 1, by omega⟩
-          rcases hcase with ⟨rfl, hnull, rfl, hoka, hone, hlen⟩ | ⟨hnp, hnn, hcall⟩
+          have hpnt : ("println" == "throw") = false := by decide
+          rcases hcase with ⟨rfl, hnull, rfl, hoka, hone, hlen⟩ | ⟨hnp, hnt, hnn, hcall⟩ | ⟨rfl, rfl, a, rfl, hat⟩
           · -- println
-            simp only [Frag.wsGS, beq_self_eq_true, if_true, Bool.and_eq_true, Option.isNone_iff_eq_none] at hws
+            simp only [Frag.wsGS, hpnt, Bool.false_eq_true, if_false, beq_self_eq_true, if_true, Bool.and_eq_true,
+              Option.isNone_iff_eq_none] at hws
             obtain ⟨⟨hρ, hφ⟩, hwa⟩ := hws
             simp only [Frag.wsGArgs, Bool.and_eq_true] at hwa
             have hargs := compileExprs_seq cs (Frag.cdArgs args) (args.reverse.map (·.2)) f'
@@ -170,7 +176,7 @@ theorem compile_gstmt : ∀ (fuel : Nat),
                 exact wsGArgs_mem env.scopes (φOf cs) args hwa.1 hwa.2 a ha)
             rw [cgEs_rev_args] at hargs
             rw [compileStmt, cgS]
-            simp only [beq_self_eq_true, if_true]
+            simp only [hpnt, Bool.false_eq_true, if_false, beq_self_eq_true, if_true]
             refine bind_run _ _ _ (updS cs L (c0 ++ _) _) () _ ?_ (by simp [Expr.ty, hnull]; rfl)
             rw [compileExpr]
             refine bind_run _ _ _ _ _ _ hargs ?_
@@ -188,7 +194,8 @@ theorem compile_gstmt : ∀ (fuel : Nat),
             simp only [List.append_assoc, List.cons_append, List.nil_append]
           · -- a user function called for its effect
             have hne : (name == "println") = false := by simpa using hnp
-            simp only [Frag.wsGS, hne, Bool.false_eq_true, if_false, Bool.and_eq_true,
+            have hnt' : (name == "throw") = false := by simpa using hnt
+            simp only [Frag.wsGS, hne, hnt', Bool.false_eq_true, if_false, Bool.and_eq_true,
               Option.isNone_iff_eq_none] at hws
             obtain ⟨⟨hρ, hφ⟩, hwa⟩ := hws
             simp only [Frag.wsGArgs, Bool.and_eq_true] at hwa
@@ -200,12 +207,122 @@ theorem compile_gstmt : ∀ (fuel : Nat),
               refine ⟨?_, hwa.2⟩
               simp [Frag.callsOK, hρ, hφ]
             rw [compileStmt, cgS]
-            simp only [hne, Bool.false_eq_true, if_false]
+            simp only [hne, hnt', Bool.false_eq_true, if_false]
             refine bind_run _ _ _ _ _ _ (hGE (f' + 1) (by omega) _ cs hcall
               (by simp only [Frag.cdE]; omega) L c0 env hwsE) ?_
             simp only [Expr.ty, hnn, Bool.not_false, if_true]
             rw [emit_run_S]
             simp only [List.append_assoc]
+          · -- `throw(a)`
+            simp only [Frag.wsGS, beq_self_eq_true, if_true, Bool.and_eq_true, Option.isNone_iff_eq_none] at hws
+            obtain ⟨⟨hρ, hφ⟩, hwa⟩ := hws
+            simp only [Frag.wsGArgs, Bool.and_eq_true] at hwa
+            have hpa : Frag.pureE a.2 = true := atom_pure _ hat
+            have hda : Frag.depthE a.2 ≤ Frag.cdArgs [a] := by
+              have := depthE_le_cdE' a.2 hpa
+              simp only [Frag.cdArgs]; omega
+            simp only [List.length_singleton] at hd
+            have hargs := compileExprs_seq cs (Frag.cdArgs [a]) ([a].reverse.map (·.2)) f'
+              (by
+                intro e he f'' hM _
+                simp only [List.reverse_singleton, List.map_singleton, List.mem_singleton] at he
+                subst he
+                intro L c0 env hws'
+                have hws'' := hws'
+                simp only [Frag.wsGE, Bool.and_eq_true] at hws''
+                rw [varsGE_pure a.2 hpa] at hws''
+                rw [cgE_of_pure _ _ _ _ _ hpa]
+                exact compileExpr_pure_S f'' a.2 cs L c0 env hpa (by omega) hws''.1)
+              (by simp only [List.length_map, List.length_reverse, List.length_singleton]; omega) L c0 env
+              (by
+                intro e he
+                simp only [List.reverse_singleton, List.map_singleton, List.mem_singleton] at he
+                subst he
+                exact wsGArgs_mem env.scopes (φOf cs) [a] hwa.1 hwa.2 a (by simp))
+            rw [cgEs_rev_args] at hargs
+            rw [compileStmt, cgS]
+            simp only [beq_self_eq_true, if_true]
+            refine bind_run _ _ _ (updS cs L (c0 ++ ((cgArgs cs.currModule (ρS env.scopes) (φOf cs) [a] env.lm).1 ++
+              [(.throw, csp)])) { env with lm := (cgArgs cs.currModule (ρS env.scopes) (φOf cs) [a] env.lm).2 }) () _ ?_ ?_
+            · rw [compileExpr]
+              refine bind_run _ _ _ _ _ _ hargs ?_
+              simp only [beq_self_eq_true, if_true]
+              rw [emit_run_S]
+              simp only [List.append_assoc]
+            · simp only [Expr.ty]
+              by_cases hn : cty.isNull = true
+              · simp only [hn, Bool.not_true, Bool.false_eq_true, if_false, if_true, List.append_nil]
+                rfl
+              · have hn' : cty.isNull = false := by simpa using hn
+                simp only [hn', Bool.not_false, if_true, Bool.false_eq_true, if_false]
+                rw [emit_run_S]
+                simp only [List.append_assoc]
+        · -- `try { … } catch e { … }`
+          obtain ⟨cbsp, cbty, cstmts, coe⟩ := cb
+          cases coe with
+          | some _ => simp [Frag.okGBS] at hcb
+          | none =>
+          simp only [Frag.okGBS] at hcb
+          simp only [Frag.cdS, Frag.cdX, Frag.cdBS] at hd
+          obtain ⟨f', rfl⟩ : ∃ f', fuel = f' + 1 := ⟨fuel - 1, by omega⟩
+          obtain ⟨f'', rfl⟩ : ∃ f'', f' = f'' + 1 := ⟨f' - 1, by omega⟩
+          simp only [Frag.wsGS, Bool.and_eq_true] at hws
+          obtain ⟨⟨_, hwt⟩, hwc⟩ := hws
+          have ihB' := (ihAll (f'' + 1) (by omega)).2.2
+          have ihSs' := (ihAll f'' (by omega)).2.1
+          -- the body is compiled one `try` deeper; its code does not depend on the loop stack
+          obtain ⟨env1, henv1⟩ : ∃ e : CEnv, e = { env with lm := (freshLabel cs.currModule
+            (freshLabel cs.currModule env.lm "exception_label").2 "after_catch_label").2 } := ⟨_, rfl⟩
+          rw [← henv1] at hwt hwc
+          have hirr := cgBS_loops_irrel cs.currModule cs.currFn (φOf cs) false (loopsOf L) tb env1 htb
+          have hwt' : Frag.wsGBS cs.currModule cs.currFn (φOf cs) (loopsOf L) tb env1 = true := by
+            rw [hirr.2]; exact hwt
+          have hT : ∀ c1, (compileBlock (f'' + 1) tb true).run (updS { cs with tryDepth := cs.tryDepth + 1 } L c1 env1) =
+              ((), updS { cs with tryDepth := cs.tryDepth + 1 } L
+                (c1 ++ (cgBS cs.currModule cs.currFn (φOf cs) (loopsOf L) tb env1).1)
+                (cgBS cs.currModule cs.currFn (φOf cs) (loopsOf L) tb env1).2) :=
+            fun c1 => ihB' tb { cs with tryDepth := cs.tryDepth + 1 } L false false (by intro h; cases h)
+              (by intro h; cases h) htb (by omega) c1 env1 hwt'
+          rw [hirr.1] at hT
+          generalize hCt : cgBS cs.currModule cs.currFn (φOf cs) [] tb env1 = ct at hwc hT
+          have hC := ihSs' cstmts cs L il rt hrt hil hcb (by omega)
+          rw [compileStmt, cgS]
+          rw [← henv1, hCt]
+          refine bind_run _ _ _ (updS cs L (c0 ++ _) _) () _ ?_ (by simp [Expr.ty, htty]; rfl)
+          rw [compileExpr]
+          refine bind_run _ _ _ _ (updS cs L c0 env) _ rfl ?_
+          refine bind_run _ _ _ _ _ _ (getMangledFn_run_S _ _ _ _ _) ?_
+          refine bind_run _ _ _ _ _ _ (mangleLabel_run_S _ _ _ _ _) ?_
+          refine bind_run _ _ _ _ _ _ (mangleLabel_run_S _ _ _ _ _) ?_
+          refine bind_run _ _ _ _ _ _ (emit_run_S _ _ _ _ _ _) ?_
+          refine bind_run _ _ _ (updS { cs with tryDepth := cs.tryDepth + 1 } L _ env1) () _ (by rw [henv1]; rfl) ?_
+          refine bind_run _ _ _ _ _ _ (hT _) ?_
+          refine bind_run _ _ _ (updS cs L (c0 ++ [(.setTry ((φOf cs cs.currFn).getD "")
+              (freshLabel cs.currModule env.lm "exception_label").1, tsp)] ++ ct.1) ct.2) () _ ?_ ?_
+          · show ((), _) = ((), _)
+            congr 1
+          refine bind_run _ _ _ _ _ _ (emit_run_S _ _ _ _ _ _) ?_
+          refine bind_run _ _ _ _ _ _ (emit_run_S _ _ _ _ _ _) ?_
+          refine bind_run _ _ _ _ _ _ (emit_run_S _ _ _ _ _ _) ?_
+          refine bind_run _ _ _ (updS cs L _ { ct.2 with scopes := [] :: ct.2.scopes }) () _ rfl ?_
+          refine bind_run _ _ _ _ _ _ (mangleVar_run_S _ _ _ _ _) ?_
+          refine bind_run _ _ _ _ _ _ (emit_run_S _ _ _ _ _ _) ?_
+          refine bind_run _ _ _ _ _ _ (emit_run_S _ _ _ _ _ _) ?_
+          have hCB : ∀ c1 envx, Frag.wsGSs cs.currModule cs.currFn (φOf cs) (loopsOf L) cstmts envx = true →
+              (compileBlock (f'' + 1) (.mk cbsp cbty cstmts none) false).run (updS cs L c1 envx) =
+              ((), updS cs L (c1 ++ (cgSs cs.currModule cs.currFn (φOf cs) (loopsOf L) cstmts envx).1)
+                (cgSs cs.currModule cs.currFn (φOf cs) (loopsOf L) cstmts envx).2) := by
+            intro c1 envx hw
+            rw [compileBlock]
+            simp only [Bool.false_eq_true, if_false]
+            refine bind_run _ _ _ _ _ _ (hC c1 envx hw) ?_
+            rfl
+          refine bind_run _ _ _ _ _ _ (hCB _ _ hwc) ?_
+          refine bind_run _ _ _ _ _ _ (emit_run_S _ _ _ _ _ _) ?_
+          show ((), _) = ((), _)
+          congr 1
+          simp only [List.append_assoc, List.cons_append, List.nil_append]
+          rfl
       case whileS sp c body =>
         simp only [Frag.okGS, Bool.and_eq_true] at hs
         obtain ⟨hc, hb⟩ := hs
@@ -219,7 +336,7 @@ theorem compile_gstmt : ∀ (fuel : Nat),
         refine bind_run _ _ _ _ _ _ ((compile_gexpr fuel).1 c cs hc (by omega) L _ _ hvc) ?_
         refine bind_run _ _ _ _ _ _ (emit_run_S _ _ _ _ _ _) ?_
         refine bind_run _ _ _ (updS cs (_ :: L) _ _) _ _ rfl ?_
-        refine bind_run _ _ _ _ _ _ (ihB body cs (_ :: L) htd hb (by omega) _ _ hwb) ?_
+        refine bind_run _ _ _ _ _ _ (ihB body cs (_ :: L) true rt hrt (fun _ => ⟨_, _, _, rfl⟩) hb (by omega) _ _ hwb) ?_
         refine bind_run _ _ _ _ _ _ (emit_run_S _ _ _ _ _ _) ?_
         refine bind_run _ _ _ _ _ _ (emit_run_S _ _ _ _ _ _) ?_
         simp only [List.append_assoc, List.cons_append, List.nil_append]
@@ -233,7 +350,7 @@ theorem compile_gstmt : ∀ (fuel : Nat),
         refine bind_run _ _ _ _ _ _ (mangleLabel_run_S _ _ _ _ _) ?_
         refine bind_run _ _ _ _ _ _ (emit_run_S _ _ _ _ _ _) ?_
         refine bind_run _ _ _ (updS cs (_ :: L) _ _) _ _ rfl ?_
-        refine bind_run _ _ _ _ _ _ (ihB body cs (_ :: L) htd hs (by omega) _ _ hws) ?_
+        refine bind_run _ _ _ _ _ _ (ihB body cs (_ :: L) true rt hrt (fun _ => ⟨_, _, _, rfl⟩) hs (by omega) _ _ hws) ?_
         refine bind_run _ _ _ _ _ _ (emit_run_S _ _ _ _ _ _) ?_
         refine bind_run _ _ _ _ _ _ (emit_run_S _ _ _ _ _ _) ?_
         simp only [List.append_assoc, List.cons_append, List.nil_append]
@@ -241,34 +358,40 @@ theorem compile_gstmt : ∀ (fuel : Nat),
       case brk sp =>
         simp only [Frag.okGS] at hs
         cases L with
-        | nil => simp at hs
+        | nil => subst hs; obtain ⟨_, _, _, h⟩ := hil rfl; cases h
         | cons t L' =>
           obtain ⟨b, c, td⟩ := t
+          have htd : td = cs.tryDepth := by
+            subst hs; obtain ⟨_, _, _, h⟩ := hil rfl; cases h; rfl
           have hl : loopsOf ((b, c, td) :: L') = (b, c) :: loopsOf L' := rfl
           rw [hl, compileStmt, cgS]
           refine bind_run _ _ _ _ (updS cs ((b, c, td) :: L') c0 env) _ rfl ?_
           show (do popTries sp (cs.tryDepth - td); Comp.emit (.jump b) sp : C Unit).run _ = _
-          rw [htd, Nat.zero_sub]
+          rw [htd, Nat.sub_self]
           refine bind_run _ _ _ _ () _ rfl ?_
           rw [emit_run_S]
       case cont sp =>
         simp only [Frag.okGS] at hs
         cases L with
-        | nil => simp at hs
+        | nil => subst hs; obtain ⟨_, _, _, h⟩ := hil rfl; cases h
         | cons t L' =>
           obtain ⟨b, c, td⟩ := t
+          have htd : td = cs.tryDepth := by
+            subst hs; obtain ⟨_, _, _, h⟩ := hil rfl; cases h; rfl
           have hl : loopsOf ((b, c, td) :: L') = (b, c) :: loopsOf L' := rfl
           rw [hl, compileStmt, cgS]
           refine bind_run _ _ _ _ (updS cs ((b, c, td) :: L') c0 env) _ rfl ?_
           show (do popTries sp (cs.tryDepth - td); Comp.emit (.jump c) sp : C Unit).run _ = _
-          rw [htd, Nat.zero_sub]
+          rw [htd, Nat.sub_self]
           refine bind_run _ _ _ _ () _ rfl ?_
           rw [emit_run_S]
       case ret sp oe =>
         cases oe with
         | none => simp [Frag.okGS] at hs
         | some e =>
-          simp only [Frag.okGS] at hs
+          simp only [Frag.okGS, Bool.and_eq_true] at hs
+          obtain ⟨hrt', hs⟩ := hs
+          have htd := hrt hrt'
           simp only [Frag.cdS] at hd
           simp only [Frag.wsGS, Bool.and_eq_true] at hws
           rw [compileStmt, cgS]
@@ -280,7 +403,7 @@ theorem compile_gstmt : ∀ (fuel : Nat),
           refine bind_run _ _ _ _ _ _ (cleanupLabel_run_S _ _ _ _) ?_
           rw [emit_run_S]
           simp only [List.append_assoc]
-    · intro ss cs L htd hs hd c0 env hws
+    · intro ss cs L il rt hrt hil hs hd c0 env hws
       cases ss with
       | nil => rw [compileStmts, cgSs, List.append_nil]; rfl
       | cons st ss =>
@@ -288,9 +411,9 @@ theorem compile_gstmt : ∀ (fuel : Nat),
         simp only [Frag.cdSs] at hd
         simp only [Frag.wsGSs, Bool.and_eq_true] at hws
         rw [compileStmts, cgSs]
-        refine bind_run _ _ _ _ _ _ (ihS st cs L htd hs.1 (by omega) c0 env hws.1) ?_
-        rw [ihSs ss cs L htd hs.2 (by omega) _ _ hws.2, List.append_assoc]
-    · intro b cs L htd hs hd c0 env hws
+        refine bind_run _ _ _ _ _ _ (ihS st cs L il rt hrt hil hs.1 (by omega) c0 env hws.1) ?_
+        rw [ihSs ss cs L il rt hrt hil hs.2 (by omega) _ _ hws.2, List.append_assoc]
+    · intro b cs L il rt hrt hil hs hd c0 env hws
       obtain ⟨bsp, bty, stmts, oe⟩ := b
       cases oe with
       | some _ => simp [Frag.okGBS] at hs
@@ -301,7 +424,7 @@ theorem compile_gstmt : ∀ (fuel : Nat),
         rw [compileBlock, cgBS]
         simp only [if_true]
         refine bind_run _ _ _ (updS cs L c0 { env with scopes := [] :: env.scopes }) _ _ rfl ?_
-        refine bind_run _ _ _ _ _ _ (ihSs stmts cs L htd hs (by omega) c0 _ hws) ?_
+        refine bind_run _ _ _ _ _ _ (ihSs stmts cs L il rt hrt hil hs (by omega) c0 _ hws) ?_
         rfl
 
 end HmsProofs.Sim
